@@ -22,7 +22,9 @@ import (
 
 	"verif/harness/internal/core"
 	"verif/harness/internal/fixt"
+	dotted "verif/harness/internal/fixt/sub/dotted.v3"
 	clash "verif/harness/internal/fixt/sub/fixt"
+	subjson "verif/harness/internal/fixt/sub/json"
 	"verif/harness/internal/fixt2"
 )
 
@@ -50,9 +52,14 @@ const (
 	fixtPath  = "verif/harness/internal/fixt"
 	fixt2Path = "verif/harness/internal/fixt2"
 	clashPath = "verif/harness/internal/fixt/sub/fixt"
+	// a package of the module called json (the name of a standard library package) and the standard package itself
+	subjsonPath = "verif/harness/internal/fixt/sub/json"
+	stdjsonPath = "encoding/json"
+	// a package whose last path element contains a dot
+	dottedPath = "verif/harness/internal/fixt/sub/dotted.v3"
 )
 
-var pkgIDOf = map[string]string{fixtPath: "fixt", fixt2Path: "fixt2", clashPath: "clash"}
+var pkgIDOf = map[string]string{fixtPath: "fixt", fixt2Path: "fixt2", clashPath: "clash", subjsonPath: "subjson", stdjsonPath: "stdjson", dottedPath: "dotted"}
 
 var (
 	fixtOnce sync.Once
@@ -104,7 +111,11 @@ func leafTypes(u *gengotypes.Universe, id string) (types.Type, error) {
 		return namedOf(u, fixt2Path, "BS")
 	case "clash.C":
 		return namedOf(u, clashPath, "C")
-	case "fixt.Gen[int]", "fixt.Gen[fixt.A]", "fixt.Gen[fixt2.B]":
+	case "subjson.J":
+		return namedOf(u, subjsonPath, "J")
+	case "stdjson.RawMessage":
+		return namedOf(u, stdjsonPath, "RawMessage")
+	case "fixt.Gen[int]", "fixt.Gen[fixt.A]", "fixt.Gen[fixt2.B]", "fixt.Gen[dotted.D]":
 		g, err := namedOf(u, fixtPath, "Gen")
 		if err != nil {
 			return nil, err
@@ -117,6 +128,11 @@ func leafTypes(u *gengotypes.Universe, id string) (types.Type, error) {
 		}
 		if id == "fixt.Gen[fixt2.B]" {
 			if arg, err = namedOf(u, fixt2Path, "B"); err != nil {
+				return nil, err
+			}
+		}
+		if id == "fixt.Gen[dotted.D]" {
+			if arg, err = namedOf(u, dottedPath, "D"); err != nil {
 				return nil, err
 			}
 		}
@@ -151,6 +167,12 @@ func leafReflect(id string) (reflect.Type, error) {
 		return reflect.TypeOf(fixt.Gen[fixt.A]{}), nil
 	case "fixt.Gen[fixt2.B]":
 		return reflect.TypeOf(fixt.Gen[fixt2.B]{}), nil
+	case "fixt.Gen[dotted.D]":
+		return reflect.TypeOf(fixt.Gen[dotted.D]{}), nil
+	case "subjson.J":
+		return reflect.TypeOf(subjson.J{}), nil
+	case "stdjson.RawMessage":
+		return reflect.TypeOf(json.RawMessage{}), nil
 	}
 	return nil, fmt.Errorf("unknown leaf %q", id)
 }
@@ -192,6 +214,8 @@ func buildTypes(u *gengotypes.Universe, t tlTree) (types.Type, error) {
 		return types.NewMap(subs[0], subs[1]), nil
 	case "struct1":
 		return types.NewStruct([]*types.Var{types.NewField(token.NoPos, nil, "F", subs[0], false)}, []string{tlTag}), nil
+	case "struct3": // two plain fields of arbitrary types (the same type may occur twice in one expression)
+		return types.NewStruct([]*types.Var{types.NewField(token.NoPos, nil, "First", subs[0], false), types.NewField(token.NoPos, nil, "Second", subs[1], false)}, nil), nil
 	case "struct2":
 		return types.NewStruct([]*types.Var{types.NewField(token.NoPos, nil, embeddedName(subs[0]), subs[0], true), types.NewField(token.NoPos, nil, "G", subs[1], false)}, []string{`json:",inline"`, ""}), nil
 	}
@@ -226,6 +250,8 @@ func buildReflect(t tlTree) (reflect.Type, error) {
 		return reflect.MapOf(subs[0], subs[1]), nil
 	case "struct1":
 		return reflect.StructOf([]reflect.StructField{{Name: "F", Type: subs[0], Tag: reflect.StructTag(tlTag)}}), nil
+	case "struct3":
+		return reflect.StructOf([]reflect.StructField{{Name: "First", Type: subs[0]}, {Name: "Second", Type: subs[1]}}), nil
 	case "struct2":
 		return reflect.StructOf([]reflect.StructField{{Name: subs[0].Name()[:strings.IndexAny(subs[0].Name()+"[", "[")], Type: subs[0], Anonymous: true, Tag: `json:",inline"`}, {Name: "G", Type: subs[1]}}), nil
 	}
